@@ -235,6 +235,18 @@ func runC12(ctx *Ctx) {
 			if st.positions > 0 {
 				pair(fn, args, ro, ws, st, "random-on-structured")
 			}
+			// near-equal twins (c12gen.go): each has its own concrete call
+			var tws []c12TwinCase
+			if p, _ := try(func() { tws = c12Twins(ctx, fn, args, 6) }); p {
+				ctx.Tag("structured:twin-generator-panic")
+			}
+			for _, tc := range tws {
+				if tro, ok := concrete(fn, tc.os); ok {
+					pair(fn, tc.os, tro, tc.ws, tc.st, tc.scheme)
+				} else {
+					ctx.Tag("twin:concrete-call-fails")
+				}
+			}
 		}
 	}
 	// per-function distribution (starvation must be visible in the evidence)
@@ -312,6 +324,11 @@ func runC12(ctx *Ctx) {
 			if why == "result-not-covered" && cause != "nested-placeholder-type" && p.rw.Type() == cty.Bool && p.rw.IsKnown() && c12EqualsBoundDefect(p.os, p.ws) {
 				// a definite boolean answer built on Value.Equals, and Equals itself shows the recorded C01 defect on this input
 				cause = "equals-false-on-inclusive-bound-of-other-precision"
+			}
+			if why == "result-not-covered" && (strings.HasPrefix(cause, "nested:") || strings.HasPrefix(cause, "top:")) &&
+				p.rw.Type() == cty.Bool && p.rw.IsKnown() && !p.rw.IsNull() && p.ro.Type() == cty.Bool && p.ro.IsKnown() && !p.ro.IsNull() {
+				// both answers are definite and they differ
+				cause = "definite-answer-differs"
 			}
 			ctx.Fail(Failure{Site: "sound", Sig: why + ":" + cause + ":" + p.fn,
 				What:    fmt.Sprintf("%s: the concrete call gives %s, the weakened call does not admit it (%s)", p.fn, p.ro.GoString(), why),
